@@ -304,6 +304,7 @@ type renderOutcome struct {
 	perOp    []string
 	state    string
 	failures []finding
+	vtDump   string
 }
 
 func stateLine(st tea.VerifRendererState) string {
@@ -457,6 +458,7 @@ func runHistory(h rhistory) (res renderOutcome) {
 		_ = viewStart
 	}
 	res.state = stateLine(rd.State())
+	res.vtDump = t.dump()
 	return res
 }
 
@@ -491,6 +493,18 @@ func streamRender(c *corrOut, r *rng, n int, thorough bool) map[string]interface
 	return nil
 }
 
+// streamVT: the implementation's bytes through the Go VT interpreter vs the
+// model's operations through the Lean terminal semantics (final terminal state).
+func streamVT(c *corrOut, r *rng, n int, thorough bool) map[string]interface{} {
+	for c.count < n {
+		h := genHistory(r, 30)
+		res := runHistory(h)
+		c.emit(h.line(), res.vtDump, fmt.Sprintf("w%d", h.w))
+	}
+	return nil
+}
+
 func init() {
 	streams["render"] = streamRender
+	streams["vt"] = streamVT
 }
